@@ -126,6 +126,18 @@ theorem parse_serialize (h : TableOK safeParam) (l : Params) : parse (serialize 
     · next rest heq => simp at heq; exact absurd heq.1 hc
     · exact hb
 
+/-- the same for the parser proper (a URL's own query, which has no `?` to drop): a serialised list never starts
+with `?`, because the table escapes it -/
+theorem parseBody_serialize_id (h : TableOK safeParam) (l : Params) : Url.parseBody (serialize l) = l := by
+  have hh : (serialize l).head? ≠ some 63 := by
+    cases l with
+    | nil => simp [serialize]
+    | cons p ps =>
+      obtain ⟨c, t, e, hc⟩ := serialize_head h p ps
+      rw [e]; simpa using hc
+  rw [← parse_eq_parseBody _ hh]
+  exact parse_serialize h l
+
 /-! ## (B) the sort -/
 
 theorem ltBytes_irrefl (a : Bytes) : ltBytes a a = false := by
